@@ -231,6 +231,7 @@ func (a *archetype) Reset() {
 	a.len = 0
 	for _, buf := range a.buffers {
 		buf.SetZero()
+		verifOnTyped("typedzero", buf.Addr().UnsafePointer(), nil, uint32(buf.Type().Size()))
 	}
 }
 
@@ -344,6 +345,7 @@ func (a *archetype) extend(by uint32) {
 		a.buffers[index] = reflect.New(reflect.ArrayOf(int(a.cap), old.Type().Elem())).Elem()
 		lay.pointer = a.buffers[index].Addr().UnsafePointer()
 		reflect.Copy(a.buffers[index], old)
+		verifOnTyped("typedcopy", lay.pointer, old.Addr().UnsafePointer(), lay.itemSize*uint32(old.Len()))
 	}
 }
 
